@@ -30,18 +30,19 @@ def main():
     def spy_fs(*a, **k):
         asked["n"] = k.get("n_trajectories")
         return orig_fs(*a, **k)
-    for via_device, runs, n_traj in ((False, None, 4), (True, None, 5), (True, 3, 5), (True, 7, 2)):
+    for via_device, runs, n_traj in ((False, None, 4), (True, None, 5), (True, 3, 5), (True, 7, 2), ("no noise", None, 3)):
         extra = {} if runs is None else {"runs": runs, "samples_per_run": 1}
         try:
-            noise = pulser.NoiseModel(state_prep_error=0.05, **extra)
+            # ("no noise": an empty noise model -- several trajectories are still several simulations)
+            noise = pulser.NoiseModel(**extra) if via_device == "no noise" else pulser.NoiseModel(state_prep_error=0.05, **extra)
         except Exception as e:
             print(f"  scenario runs={runs}: noise model not constructible ({type(e).__name__}); skipped")
             continue
-        dev = dataclasses.replace(MockDevice, default_noise_model=noise) if via_device else MockDevice
+        dev = dataclasses.replace(MockDevice, default_noise_model=noise) if via_device is True else MockDevice
         s2 = pulser.Sequence(reg, dev)
         s2.declare_channel("ch", "rydberg_global")
         s2.add(pulser.Pulse.ConstantPulse(100, 2.0, 0.0, 0.0), "ch")
-        kw = {"prefer_device_noise_model": True} if via_device else {"noise_model": noise}
+        kw = {"prefer_device_noise_model": True} if via_device is True else ({} if via_device == "no noise" else {"noise_model": noise})
         cfg = SVConfig(n_trajectories=n_traj, observables=[BitStrings(evaluation_times=[1.0], num_shots=10)], log_level=50, **kw)
         PA.HamiltonianData.from_sequence = staticmethod(spy_fs)
         try:
